@@ -61,7 +61,25 @@ Footers == <<
   <<Alt(0, 3600, <<"M", 3, 5, 0>>, 3600, <<"M", 10, 5, 0>>, 7200, TRUE), 2>>,
   <<Alt(34200, 37800, <<"M", 10, 1, 0>>, 7200, <<"M", 4, 1, 0>>, 10800, TRUE), 2>> >>
 
-Years == {2023, 2024, 2037, 2038, 2100, 2400, 1999}
+Thorough == IOEnv.TIER = "thorough"
+Years == {2023, 2024, 2037, 2038, 2100, 2400, 1999} \cup (IF Thorough THEN {1970, 1996, 2000, 2025, 2026, 2027, 2028, 2029, 2030, 2399} ELSE {})
+
+\* thorough tier: every weekday x week of the start month, of the end months, Julian and zero-based days around
+\* 29 February, in both hemispheres (files without transitions: the rule decides every instant)
+NorthEnd == <<"M", 10, 5, 0>>
+NorthStart == <<"M", 3, 5, 0>>
+RuleDays == {<<"M", m, w, d>> : m \in {3, 4}, w \in 1..5, d \in 0..6}
+EndDays == {<<"M", m, w, d>> : m \in {10, 11}, w \in 1..5, d \in 0..6}
+JDays == {<<"J", n>> : n \in {58, 59, 60, 61, 90, 120}} \cup {<<"Z", n>> : n \in {57, 58, 59, 60, 89, 119}}
+JEnds == {<<"J", n>> : n \in {274, 300, 305, 334}} \cup {<<"Z", n>> : n \in {273, 300, 304, 334}}
+MoreFooters ==
+  IF ~Thorough THEN {} ELSE
+  {Alt(3600, 7200, s, 7200, NorthEnd, 10800, TRUE) : s \in RuleDays \cup JDays}
+  \cup {Alt(-18000, -14400, NorthStart, 7200, e, 7200, TRUE) : e \in EndDays \cup JEnds}
+  \cup {Alt(36000, 39600, e, 7200, s, 10800, TRUE) : s \in {<<"M", 4, w, d>> : w \in {1, 5}, d \in 0..6} \cup JDays, e \in {<<"M", 10, 1, 0>>, <<"J", 300>>}}
+  \cup {Alt(43200, 46800, <<"M", 9, 5, 0>>, t1, <<"M", 4, 1, 0>>, t2, FALSE) : t1 \in {0, 3600, 7200, 86399, -3600, 93600}, t2 \in {0, 10800, 90000, -7200}}
+MoreFiles == {[ver |-> 3, trans |-> <<>>, types |-> <<f.std>>, footer |-> f] :
+                f \in {g \in MoreFooters : InShard(g.s.day[2] + g.e.day[2] + g.s.time) /\ \A y \in Years : IanaShaped(g, y)}}
 
 \* ---- transition tables ----------------------------------------------------------------
 T(y, m, d, s) == <<Ymd2Dn(y, m, d), s>>
@@ -124,5 +142,5 @@ ASSUME \A i \in 1..Len(Footers) : \A t \in {T(2023, 1, 1, 0), T(2023, 3, 26, 359
                                             T(2023, 10, 29, 3600), T(2024, 11, 3, 21600), T(2024, 12, 31, 86399), T(1999, 4, 4, 7200)} :
          RuleOffsetIn(Footers[i][1], t) = RuleOffsetIn(Footers[i][1], <<t[1] + DaysPerEra, t[2]>>)
          /\ RuleOffsetIn(Footers[i][1], t) = RuleOffsetIn(Footers[i][1], <<t[1] - DaysPerEra, t[2]>>)
-ASSUME LET cs == SetToSeq({LookupCase(tz) : tz \in Files}) IN ndJsonSerialize(IOEnv.OUT, cs) /\ PrintT(<<"GENERATED", Len(cs)>>)
+ASSUME LET cs == SetToSeq({LookupCase(tz) : tz \in Files \cup MoreFiles}) IN ndJsonSerialize(IOEnv.OUT, cs) /\ PrintT(<<"GENERATED", Len(cs)>>)
 =============================================================================
